@@ -614,7 +614,7 @@ namespace vh
         if (const char* sf = std::getenv("FSL_CTL_STATS"))
         {
             // how much of the execution was actually under schedule control (evidence, vacuity guard)
-            size_t grants = 0, inner = 0, spawns = 0, pos = 0;
+            size_t grants = 0, inner = 0, kern = 0, spawns = 0, pos = 0;
             while ((pos = slog.find("{\"e\":\"g\"", pos)) != std::string::npos)
             {
                 ++grants;
@@ -622,14 +622,16 @@ namespace vh
                 std::string ln = slog.substr(pos, e - pos);
                 if (ln.find("\"s\":40,") != std::string::npos || ln.find("\"s\":60,") != std::string::npos)
                     ++inner;
+                if (ln.find("\"s\":60,") != std::string::npos)
+                    ++kern;
                 if (ln.find("\"s\":" + std::to_string(hk::c_spawn) + ",") != std::string::npos)
                     ++spawns;
                 pos = e;
             }
             if (FILE* f = std::fopen(sf, "a"))
             {
-                std::fprintf(f, "{\"id\":\"%s\",\"grants\":%zu,\"inner\":%zu,\"spawns\":%zu,\"hang\":%d}\n",
-                             c.get_str("id", "?").c_str(), grants, inner, spawns, oc.hang ? 1 : 0);
+                std::fprintf(f, "{\"id\":\"%s\",\"grants\":%zu,\"inner\":%zu,\"kernel\":%zu,\"spawns\":%zu,\"hang\":%d}\n",
+                             c.get_str("id", "?").c_str(), grants, inner, kern, spawns, oc.hang ? 1 : 0);
                 std::fclose(f);
             }
         }
